@@ -310,3 +310,20 @@ Proof.
   split; [cbn; lia|]. split; [cbn; lia|]. split; [reflexivity|].
   vm_compute. reflexivity.
 Qed.
+
+(* the hypotheses of rolling_buffer_sufficient_lemma are satisfiable: 5x5 stride-2 SAME convolution on 23 rows,
+   consumer stripes of 2 rows, producer stripes of 4 rows; 12 OFM rows, rolling buffer of 14 rows *)
+Example rolling_buffer_sufficient_example :
+  exists g pad skirt,
+    calc_padding_and_skirt PAD_SAME 5 5 2 2 23 23 {| p_top := 0; p_left := 0; p_bottom := 0; p_right := 0 |} = Some (pad, skirt) /\
+    g = geom_of 23 12 5 1 2 pad skirt /\ geom_ok g /\ box_excess g <= 1 /\
+    buffer_h g 2 4 = 14 /\ List.length (cascade_events g 2 4) = 12%nat /\
+    run_events (buffer_h g 2 4) rb_empty (cascade_events g 2 4) = true.
+Proof.
+  eexists _, _, _. split; [vm_compute; reflexivity|]. split; [reflexivity|].
+  assert (G := same_geom_ok 23 12 5 1 2 _ _ 5 2 23 {| p_top := 0; p_left := 0; p_bottom := 0; p_right := 0 |}
+                 ltac:(lia) ltac:(lia) ltac:(lia) ltac:(lia) ltac:(reflexivity) ltac:(vm_compute; reflexivity)).
+  destruct G as [G _]. split; [exact G|]. split; [vm_compute; discriminate|].
+  split; [vm_compute; reflexivity|]. split; [vm_compute; reflexivity|].
+  apply rolling_buffer_sufficient_lemma; [exact G | lia | lia | vm_compute; discriminate].
+Qed.
